@@ -28,7 +28,7 @@ func init() {
 			"every result set column holds at least one non-NULL value and result sets have at least one row",
 			"Precision rounds to float64(int(x*10^p + copysign(0.5,x)))/10^p as documented by the implementation; values are of moderate magnitude",
 		},
-		Stages:   stages(15000, 300000, 0, 0),
+		Stages:   stages(15000, 6000000, 0, 0),
 		RunCase:  runC19,
 		Conclude: nil,
 	})
